@@ -1,0 +1,25 @@
+//go:build verif
+// +build verif
+
+package fp
+
+// VerifPath, when set, is told which conversion path produced a result:
+// 1 exact float arithmetic, 2 Eisel-Lemire, 3 Eisel-Lemire confirmed with the
+// upper mantissa bound, 4 multiprecision decimal fallback.  Used by the
+// verification harness for path coverage only.
+var VerifPath func(tier int)
+
+// VerifWide, when set, is told that Eisel-Lemire took the wider approximation.
+var VerifWide func()
+
+func verifPath(tier int) {
+	if VerifPath != nil {
+		VerifPath(tier)
+	}
+}
+
+func verifWide() {
+	if VerifWide != nil {
+		VerifWide()
+	}
+}
